@@ -67,6 +67,8 @@ pub struct AssignLanguagesOptions {
 
 impl AssignLanguagesOptions {
     pub fn run<A: ast::Visitable + ?Sized>(self, ast: &mut A, ctx: &mut CompilerContext<'_>) -> Result<(), ErrorReported> {
+    #[cfg(truth_verif)]
+    crate::verif_hooks::pass("assign_languages");
         let mut v = AssignLanguagesVisitor {
             ctx,
             language_stack: vec![Some(self.funcs)],
@@ -93,6 +95,8 @@ impl AssignLanguagesOptions {
 /// names will also be resolved in the copy.  This property is important to helping make some parts
 /// of `const` evaluation tractable.  (especially consts defined in meta, like sprite ids)
 pub fn resolve_names<A: ast::Visitable + ?Sized>(ast: &A, ctx: &mut CompilerContext<'_>) -> Result<(), ErrorReported> {
+    #[cfg(truth_verif)]
+    crate::verif_hooks::pass("resolve_names");
     let mut v = crate::resolve::ResolveNamesVisitor::new(ctx);
     ast.visit_with(&mut v);
     v.finish()
